@@ -97,16 +97,21 @@ def runTcp (args : List String) : String :=
   match parseItems 0 false [] args with
   | .error e => e
   | .ok (items, rest) =>
+    -- `L` = the reader's session was closed locally (its underlay was torn down)
+    let (loc, rest) := match rest with
+      | "L" :: more => (true, more)
+      | _ => (false, rest)
     match rest with
     | [r] =>
       match r.splitOn ":" with
       | ["R", n, kind, total] =>
         match n.toNat?, total.toNat? with
         | some n, some total =>
-          let sr := CloseStream.run CloseStream.SRx.init items
+          let sr0 := CloseStream.run CloseStream.SRx.init items
+          let sr := if loc then CloseStream.localClose sr0 else sr0
           let qb := (sr.queue.map List.length).sum
           let wire := (items.map (fun | .data p => p.length | _ => 0)).sum
-          let tail := s!"{b01 sr.closed} {qb} {wire}"
+          let tail := s!"{b01 sr.closed} {qb} {wire} {b01 (!loc)}"
           let atEnd := CloseStream.readOnce sr sr.queue.length
           match kind with
           | "eof" =>
@@ -114,9 +119,8 @@ def runTcp (args : List String) : String :=
             else if n ≠ qb then s!"err reader-eof-after {n} model-queue {qb}"
             else s!"ok {b01 (decide (n < total))} {tail}"
           | "blocked" =>
-            if n ≠ qb then s!"err reader-blocked-after {n} model-queue {qb}"
-            else if atEnd ≠ .block then s!"err reader-blocked-on-closed-session {n}"
-            else s!"ok 0 {tail}"
+            -- (the reader may simply not have got to its next Read by the bound: no claim about `atEnd`)
+            if n ≠ qb then s!"err reader-blocked-after {n} model-queue {qb}" else s!"ok 0 {tail}"
           | "err" => if n > qb then s!"err reader-read {n} model-queue {qb}" else s!"ok 0 {tail}"
           | _ => "bad-op"
         | _, _ => "bad-op"
